@@ -7,15 +7,27 @@
 (* class, its direct superclasses in the order written, followed by theirs *)
 (* (a class already present is skipped).  make-instance fills a slot from  *)
 (* the matching initarg if supplied, otherwise from the most specific      *)
-(* initform, otherwise leaves it unbound.  Everything is recomputed from   *)
-(* the current definitions; DefClass may come in any order (forward        *)
-(* references) and may redefine.                                           *)
+(* initform, otherwise leaves it unbound; readers act on that slot; typep  *)
+(* uses the same precedence list.  Everything is recomputed from the       *)
+(* current definitions: DefClass may come in any order (forward            *)
+(* references), may redefine, and instances may have been made in between  *)
+(* (ghost variable made: part of the VIEW because an implementation may    *)
+(* cache per-class data at first instantiation).                           *)
 (***************************************************************************)
 EXTENDS Integers, Sequences, FiniteSets, TLC, Json
-CONSTANTS C, MaxOps
-\* cls[c] = [def, supers : Seq(C), slot : 0 no slot s | 1 slot s without initform | 2 slot s with initform]
-VARIABLES cls, hist, feat
-Undef == [def |-> FALSE, supers |-> <<>>, slot |-> 0]
+CONSTANTS NC, MaxOps, MaxSupers, EmitFrom,
+          Thin        \* random walks print one state in Thin of the deep end (all enabled successors are evaluated)
+AllC == <<"ca", "cb", "cc", "cd", "ce", "cf">>
+C == {AllC[i] : i \in 1..NC}
+Idx(c) == CHOOSE i \in 1..Len(AllC) : AllC[i] = c
+\* slot configurations of a class: slot s (initarg :s, reader), slot u (initarg :u, or sharing :s)
+Cfgs == {"none", "s", "sf", "u", "us", "sfuf"}
+SlotS(cfg) == IF cfg = "s" THEN 1 ELSE IF cfg \in {"sf", "sfuf"} THEN 2 ELSE 0       \* 0 none, 1 no initform, 2 initform
+SlotU(cfg) == IF cfg = "u" THEN 1 ELSE IF cfg = "sfuf" THEN 2 ELSE IF cfg = "us" THEN 3 ELSE 0   \* 3: initarg :s shared
+VARIABLES cls,     \* cls[c] = [def, supers : Seq(C), cfg]
+          made,    \* ghost: classes of which an instance has been made so far
+          hist, feat
+Undef == [def |-> FALSE, supers |-> <<>>, cfg |-> "none"]
 Rng(s) == {s[i] : i \in 1..Len(s)}
 NoDup(s) == \A i, j \in 1..Len(s) : i # j => s[i] # s[j]
 SeqsUpTo(S, n) == UNION {[1..k -> S] : k \in 0..n}
@@ -28,44 +40,71 @@ Reach(t, from, seen) == IF from \in seen THEN seen
 Acyclic(t) == \A c \in C : \A i \in 1..Len(t[c].supers) : c \notin Reach(t, t[c].supers[i], {})
 Ready(t, c) == \A d \in Reach(t, c, {}) : t[d].def
 
+\* first occurrences of a sequence, in order
+Dedup(s) == LET keep == {i \in 1..Len(s) : \A j \in 1..(i - 1) : s[j] # s[i]}
+                nth(k) == CHOOSE i \in keep : Cardinality({j \in keep : j <= i}) = k
+            IN [k \in 1..Cardinality(keep) |-> s[nth(k)]]
+RECURSIVE Flat(_)
+Flat(ss) == IF ss = <<>> THEN <<>> ELSE ss[1] \o Flat(Tail(ss))
+\* "direct superclasses in the order written followed by theirs"
 RECURSIVE Inherit(_, _)
-RECURSIVE AppendNew(_, _)
-RECURSIVE Expand(_, _, _)
-AppendNew(acc, xs) == IF xs = <<>> THEN acc
-                      ELSE AppendNew(IF xs[1] \in Rng(acc) THEN acc ELSE Append(acc, xs[1]), Tail(xs))
-Expand(t, ds, acc) == IF ds = <<>> THEN acc ELSE Expand(t, Tail(ds), AppendNew(acc, Inherit(t, ds[1])))
-Inherit(t, c) == LET directs == AppendNew(<<>>, t[c].supers) IN Expand(t, directs, directs)
+Inherit(t, c) == Dedup(t[c].supers \o Flat([i \in 1..Len(t[c].supers) |-> Inherit(t, t[c].supers[i])]))
 Prec(t, c) == <<c>> \o Inherit(t, c)
 
-\* slot s of a fresh instance made without initargs: "noslot", "unbound", or the class whose initform applies
-SlotOf(t, c) == LET p == Prec(t, c)
-                    withSlot == SelectSeq(p, LAMBDA d : t[d].slot > 0)
-                    withForm == SelectSeq(p, LAMBDA d : t[d].slot = 2)
-                IN IF withSlot = <<>> THEN "noslot" ELSE IF withForm = <<>> THEN "unbound" ELSE withForm[1]
-HasSlot(t, c) == SelectSeq(Prec(t, c), LAMBDA d : t[d].slot > 0) # <<>>
+DefinesS(t, d) == SlotS(t[d].cfg) > 0
+DefinesU(t, d) == SlotU(t[d].cfg) > 0
+HasS(t, c) == \E d \in Rng(Prec(t, c)) : DefinesS(t, d)
+HasU(t, c) == \E d \in Rng(Prec(t, c)) : DefinesU(t, d)
+\* value of a slot of a fresh instance: 0 no such slot, -1 unbound, else the value
+FormS(t, c) == LET w == SelectSeq(Prec(t, c), LAMBDA d : SlotS(t[d].cfg) = 2) IN IF w = <<>> THEN -1 ELSE Idx(w[1])
+FormU(t, c) == LET w == SelectSeq(Prec(t, c), LAMBDA d : SlotU(t[d].cfg) = 2) IN IF w = <<>> THEN -1 ELSE 10 + Idx(w[1])
+USharesS(t, c) == \E d \in Rng(Prec(t, c)) : SlotU(t[d].cfg) = 3
+S0(t, c) == IF ~HasS(t, c) THEN 0 ELSE FormS(t, c)
+U0(t, c) == IF ~HasU(t, c) THEN 0 ELSE FormU(t, c)
+\* with initargs (:s 77): every slot that accepts :s gets 77
+S1(t, c) == IF ~HasS(t, c) THEN 0 ELSE 77
+U1(t, c) == IF ~HasU(t, c) THEN 0 ELSE IF USharesS(t, c) THEN 77 ELSE FormU(t, c)
+\* :s is a legal initarg iff some slot accepts it
+AcceptsS(t, c) == HasS(t, c) \/ USharesS(t, c)
 
 Subclasses(t, c) == {d \in C : d # c /\ t[d].def /\ c \in Reach(t, d, {})}
-Features(c, sups, slot) ==
-  (IF cls[c].def THEN {"redefinition"} ELSE {})
-  \cup (IF cls[c].def /\ Subclasses(cls, c) # {} THEN {"redefinition-with-subclasses"} ELSE {})
+\* feature tags: constructs for which the implementation has a recorded finding
+ClassFeatures(t, c) == IF HasS(t, c) /\ USharesS(t, c) THEN {"initarg-shared-by-two-slots"} ELSE {}
 
-Init == cls = [c \in C |-> Undef] /\ hist = <<>> /\ feat = {}
-DefClass(c, sups, slot) ==
-  LET t2 == [cls EXCEPT ![c] = [def |-> TRUE, supers |-> sups, slot |-> slot]] IN
-  /\ c \notin Rng(sups) /\ NoDup(sups) /\ Acyclic(t2) /\ t2 # cls
-  \* a redefinition that introduces a not-yet-defined superclass is outside the statement
-  /\ cls[c].def => \A i \in 1..Len(sups) : cls[sups[i]].def
-  /\ cls' = t2
-  /\ hist' = Append(hist, [c |-> c, supers |-> sups, slot |-> slot])
-  /\ feat' = feat \cup Features(c, sups, slot)
+Init == cls = [c \in C |-> Undef] /\ made = {} /\ hist = <<>> /\ feat = {}
+\* class names are arbitrary: the first mention (definition or forward reference) of the names follows ca, cb, ...
+Mentioned(t) == {c \in C : t[c].def} \cup UNION {Rng(t[c].supers) : c \in C}
+NameOrderOK(t) == \A c \in Mentioned(t) : \A i \in 1..(Idx(c) - 1) : AllC[i] \in Mentioned(t)
+DefClass(c, sups, cfg) ==
+  LET t2 == [cls EXCEPT ![c] = [def |-> TRUE, supers |-> sups, cfg |-> cfg]] IN
+  /\ c \notin Rng(sups) /\ NoDup(sups) /\ Acyclic(t2) /\ t2 # cls /\ NameOrderOK(t2)
+  \* a redefinition that makes the class (and its subclasses) wait for a not-yet-defined class is outside the statement
+  /\ cls[c].def => \A i \in 1..Len(sups) : cls[sups[i]].def /\ Ready(cls, sups[i])
+  /\ cls' = t2 /\ made' = made
+  /\ hist' = Append(hist, [op |-> "defclass", c |-> c, supers |-> sups, cfg |-> cfg])
+  /\ feat' = feat \cup UNION {ClassFeatures(t2, d) : d \in {e \in C : t2[e].def /\ Ready(t2, e)}}
+Make(c) == /\ cls[c].def /\ Ready(cls, c) /\ c \notin made
+           /\ made' = made \cup {c} /\ cls' = cls /\ feat' = feat
+           /\ hist' = Append(hist, [op |-> "make", c |-> c, supers |-> <<>>, cfg |-> ""])
 Next == /\ Len(hist) < MaxOps
-        /\ \E c \in C, sups \in SeqsUpTo(C, 2), slot \in 0..2 : DefClass(c, sups, slot)
-Expect == [c \in {d \in C : cls[d].def} |->
-             IF Ready(cls, c)
-             THEN [ready |-> TRUE, prec |-> Prec(cls, c), slot |-> SlotOf(cls, c), hasslot |-> HasSlot(cls, c)]
-             ELSE [ready |-> FALSE, prec |-> <<>>, slot |-> "notready", hasslot |-> FALSE]]
-Emit == PrintT(ToJson([hist |-> hist', expect |-> Expect', feat |-> feat']))
-View == cls
-PrecOK == \A c \in C : (cls[c].def /\ Ready(cls, c)) => /\ Prec(cls, c)[1] = c /\ NoDup(Prec(cls, c))
-                                                        /\ Rng(cls[c].supers) \subseteq Rng(Prec(cls, c))
+        /\ \/ \E c \in C, sups \in SeqsUpTo(C, MaxSupers), cfg \in Cfgs : DefClass(c, sups, cfg)
+           \/ \E c \in C : Make(c)
+ExpectOf(t) == [c \in {d \in C : t[d].def} |->
+             IF Ready(t, c)
+             THEN [ready |-> TRUE, prec |-> Prec(t, c), s0 |-> S0(t, c), u0 |-> U0(t, c), s1 |-> S1(t, c), u1 |-> U1(t, c),
+                   acc |-> AcceptsS(t, c), shared |-> (HasS(t, c) /\ USharesS(t, c)),
+                   isa |-> {d \in C : t[d].def /\ Ready(t, d) /\ d \in Rng(Prec(t, c))}]
+             ELSE [ready |-> FALSE, prec |-> <<>>, s0 |-> 0, u0 |-> 0, s1 |-> 0, u1 |-> 0, acc |-> FALSE, shared |-> FALSE, isa |-> {}]]
+Emit == Len(hist') < EmitFrom \/ PrintT(ToJson([hist |-> hist', expect |-> ExpectOf(cls'), feat |-> feat']))
+EmitState == Len(hist) < EmitFrom \/ RandomElement(1..Thin) # 1 \/ PrintT(ToJson([hist |-> hist, expect |-> ExpectOf(cls), feat |-> feat]))
+View == <<cls, made>>
+\* ---- design checks on the reference ------------------------------------------------------------------------
+PrecOK == \A c \in C : (cls[c].def /\ Ready(cls, c)) =>
+            LET p == Prec(cls, c) IN
+            /\ p[1] = c /\ NoDup(p) /\ Rng(p) = Reach(cls, c, {})
+            \* direct superclasses come first, in the order written
+            /\ \A i \in 1..Len(Dedup(cls[c].supers)) : p[i + 1] = Dedup(cls[c].supers)[i]
+\* typep is monotone along the precedence list: an instance of c is an instance of everything its supers are
+IsaOK == \A c \in C : (cls[c].def /\ Ready(cls, c)) =>
+            \A d \in Rng(Prec(cls, c)) : Rng(Prec(cls, d)) \subseteq Rng(Prec(cls, c))
 =============================================================================
